@@ -334,3 +334,33 @@ def _(cx):
     le0(cx, -dot(nvec, s - p1), "optimal:seg_start", sc)
     le0(cx, -dot(nvec, e - p1), "optimal:seg_end", sc)
     cx.cover("end")
+
+
+@contract("distance.plane_to_plane", fn=P + "plane_to_plane", props=["C10", "C11", "C12", "C20"],
+          deps=[P + "plane_intersects_plane", "distance3d.geometry.line_from_pluecker", "distance3d.geometry.hesse_normal_form", P + "_point_to_plane"])
+def _(cx):
+    """unit normals, outside the epsilon band (|n1 x n2| > epsilon or exactly 0): each returned point lies in its plane, d = |p1 - p2|,
+    d = 0 when the planes cross, connecting vector parallel to the common normal when they are parallel"""
+    f = cx.target()
+    p1, n1, p2, n2 = vectors(cx, ["a", "m", "b", "n"], rank3=False)
+    n1, n2 = unit(cx, n1, "n1"), unit(cx, n2, "n2")
+    eps = _eps(cx)
+    c = cross(n1, n2)
+    s2 = sq(c)
+    if cx.mode == "sym":
+        cx.assume(cx.any([s2 == 0, s2 > eps * eps]), "gap:|n1 x n2|")
+    else:
+        cx.assume(CB(-1.0) if (float(s2) <= 1e-30 or float(s2) > eps * eps) else CB(1.0), "gap:|n1 x n2|")
+    band(cx, s2, "planes nearly parallel")
+    d, c1, c2 = cx.call(f, p1, n1, p2, n2, eps)
+    sc = L_of(cx, p1, p2)
+    eq0(cx, dot(c1 - p1, n1), "c1_in_plane1", sc, tol=1e-9)
+    eq0(cx, dot(c2 - p2, n2), "c2_in_plane2", sc, tol=1e-9)
+    dist_consistent(cx, d, c1, c2, sc)
+    if cx.mode == "sym":
+        cx.prove("optimal:zero_if_crossing", cx.any([cx.eq(s2, 0.0), cx.eq(d, 0.0)]))
+        cx.prove("optimal:parallel_to_normal", cx.eq(sq(cross(c1 - c2, n2)), 0.0))
+    else:
+        cx.prove("optimal:zero_if_crossing", CB(min(float(np.sqrt(s2)), abs(float(d)))), tol=1e-6 * sc)
+        cx.prove("optimal:parallel_to_normal", CB(float(np.linalg.norm(np.cross(c1 - c2, n2)))), tol=1e-6 * sc)
+    cx.cover("end")
